@@ -20,6 +20,10 @@ package main
 //                 values per file, several files, the same file twice, selectors;
 //                 the reference re-binds exactly what the driver re-binds ($file
 //                 per decoded value, $index per array element, $ per rule / element)
+//   many-rules    13-60 rules (around the threshold 10-16 too) of all kinds in arbitrary
+//                 source order, many rules of the same kind, every rule printing its
+//                 own tag: the relative order within every kind is observable;
+//                 predicted by the reference schedule (c02RefRun)
 //   long-schedules  5 000 - 200 000 elements (one array, JSONL, chunks, several
 //                 files) that leave their rules by next (body / function / nested
 //                 functions / match body / pattern), exit at a late element;
@@ -29,6 +33,7 @@ import (
 	"encoding/json"
 	"fmt"
 	"math/rand"
+	"sort"
 	"strconv"
 	"strings"
 )
@@ -403,6 +408,9 @@ type c02Prog struct {
 func (g *c02Gen) program() c02Prog {
 	r := g.r
 	n := 2 + r.Intn(8)
+	if chance(r, 0.06) {
+		n = 13 + r.Intn(28) // many rules: the order within a kind must not depend on the size of the program
+	}
 	var p c02Prog
 	for i := 0; i < n; i++ {
 		k := pick(r, []int{c02B, c02B, c02E, c02E, c02BF, c02BF, c02EF, c02EF, c02P, c02P, c02P, c02P, c02P})
@@ -1356,6 +1364,163 @@ func c02AssignCase(r *rand.Rand) (prog string, files []File, sels []string, clas
 	return
 }
 
+// ---------------------------------------------------------------- many-rules
+//
+// readRules partitions the rules by kind and must keep the source order within every
+// kind however many rules the program has (an unstable sort, a map, a fixed-size table
+// or a recursive split would only show beyond some number of rules). Every rule prints
+// its own tag, so the position of each rule among the rules of its kind is observable.
+
+// c02ManyKinds: the kinds of nr rules under one of several source-order profiles.
+func c02ManyKinds(r *rand.Rand, nr int) (kinds []int, profile string) {
+	all := []int{c02B, c02E, c02BF, c02EF, c02P}
+	kinds = make([]int, nr)
+	switch r.Intn(6) {
+	case 0:
+		profile = "uniform"
+		for i := range kinds {
+			kinds[i] = pick(r, all)
+		}
+	case 1:
+		profile = "mostly-pattern"
+		for i := range kinds {
+			kinds[i] = c02P
+			if chance(r, 0.2) {
+				kinds[i] = pick(r, all)
+			}
+		}
+	case 2:
+		// BEGIN, pattern rules, END: the shape of most real programs, already in phase order
+		profile = "begin-patterns-end"
+		for i := range kinds {
+			kinds[i] = c02P
+		}
+		kinds[0], kinds[nr-1] = c02B, c02E
+	case 3:
+		// blocks of one kind each, in a random order of the kinds (sorted, reversed, ...)
+		profile = "blocks"
+		order := append([]int{}, all...)
+		r.Shuffle(len(order), func(a, b int) { order[a], order[b] = order[b], order[a] })
+		cuts := make([]int, len(order))
+		for i := 0; i < nr; i++ {
+			cuts[r.Intn(len(cuts))]++
+		}
+		i := 0
+		for k, c := range cuts {
+			for ; c > 0; c-- {
+				kinds[i] = order[k]
+				i++
+			}
+		}
+	case 4:
+		// two kinds only, strictly alternating or random
+		profile = "two-kinds"
+		a, b := pick(r, all), pick(r, all)
+		alt := chance(r, 0.5)
+		for i := range kinds {
+			kinds[i] = a
+			if (alt && i%2 == 1) || (!alt && chance(r, 0.5)) {
+				kinds[i] = b
+			}
+		}
+	default:
+		// one dominant kind (any of the five) with the others sprinkled in
+		profile = "one-dominant"
+		d := pick(r, all)
+		for i := range kinds {
+			kinds[i] = d
+			if chance(r, 0.25) {
+				kinds[i] = pick(r, all)
+			}
+		}
+	}
+	return
+}
+
+// c02ManyRule: a rule that (nearly always) prints its tag; patterns mostly absent or
+// true; a control statement only with probability pctl (exits a third of those).
+func c02ManyRule(r *rand.Rand, kind, idx int, pctl float64) c02RRule {
+	ru := c02RRule{kind: kind, tag: c02TagPrefix[kind] + strconv.Itoa(idx)}
+	if kind == c02P {
+		ru.pat = pick(r, []int{c02PatNone, c02PatNone, c02PatNone, c02PatNone, c02PatNone, c02PatTrue, c02PatTrue, c02PatOne, c02PatStrX,
+			c02PatGt, c02PatEq, c02PatIdxEven, c02PatFalse, c02PatUnset})
+		ru.k = r.Intn(4)
+		if ru.pat == c02PatGt {
+			ru.k = r.Intn(2)
+		}
+		if ru.pat != c02PatNone && chance(r, 0.06) {
+			ru.bodyless = true
+			return ru
+		}
+	}
+	pr := c02RAct{op: c02OpPrint}
+	switch kind {
+	case c02P:
+		pr.op = pick(r, []int{c02OpPrint, c02OpPrint, c02OpPrintIdx, c02OpPrintFile, c02OpPrintC})
+	case c02BF, c02EF:
+		pr.op = pick(r, []int{c02OpPrint, c02OpPrintFile, c02OpPrintC})
+	case c02B, c02E:
+		pr.op = pick(r, []int{c02OpPrint, c02OpPrintC})
+	}
+	if chance(r, 0.3) {
+		ru.acts = append(ru.acts, c02RAct{op: c02OpInc}) // a shared counter: the order also shows in the numbers
+	}
+	ru.acts = append(ru.acts, pr)
+	if chance(r, pctl) {
+		var ctl c02RAct
+		switch k := r.Intn(9); {
+		case k < 2:
+			ctl = c02RAct{op: c02OpNext}
+		case k < 3:
+			ctl = c02RAct{op: c02OpCallNext}
+		case k < 6 && kind == c02P:
+			ctl = c02RAct{op: c02OpIfNext, k: r.Intn(4)}
+		case k < 7 && kind == c02P:
+			ctl = c02RAct{op: c02OpIfExit, k: r.Intn(5)}
+		case k < 8:
+			ctl = c02RAct{op: c02OpCallExit}
+		default:
+			ctl = c02RAct{op: c02OpExit}
+		}
+		if chance(r, 0.5) {
+			ru.acts = append(ru.acts, ctl, c02RAct{op: c02OpPrintC})
+		} else {
+			ru.acts = append([]c02RAct{ctl}, ru.acts...)
+		}
+	}
+	return ru
+}
+
+// c02ManyOracle: the exact comparison with the reference schedule; when the output is
+// the expected multiset of lines in another order, the message says so (that is what a
+// partition of the rules that loses the source order looks like).
+func c02ManyOracle(class, out string) func(Resp) string {
+	ref := c02RefOracle(class, out)
+	return func(i Resp) string {
+		w := ref(i)
+		if w == "" || i["class"] != class {
+			return w
+		}
+		got := strings.Split(string(i.Bytes("out")), "\n")
+		want := strings.Split(out, "\n")
+		if len(got) != len(want) {
+			return w
+		}
+		a, b := append([]string{}, got...), append([]string{}, want...)
+		sort.Strings(a)
+		sort.Strings(b)
+		if strings.Join(a, "\n") != strings.Join(b, "\n") {
+			return w
+		}
+		for n := range got {
+			if got[n] != want[n] {
+				return fmt.Sprintf("the expected lines in another order: rules did not run in source order (line %d is %q, the schedule of the property gives %q); %s", n, got[n], want[n], w)
+			}
+		}
+		return w
+	}
+}
+
 // ---------------------------------------------------------------- long-schedules
 //
 // Thousands of elements, each of which (or every K-th) leaves its rules early.
@@ -1587,7 +1752,7 @@ func c02Permutations(n int) [][]int {
 func init() {
 	register(Family{
 		Name: "sched-trace", Prop: "C02",
-		Rule: "2-9 rules of all five kinds in mixed source order, each printing its tag with $ (and $index, $file, a counter); in 15 % of the programs the rules also assign to $file / $index (constants, containers, derived values) and every rule prints $file; patterns of every truth value, body-less rules, next/exit plain, conditional, in loops, match arms and called functions; 0-3 files x 0-3 values x 0-2 selectors x roots of every shape; oracle: BEGIN output first, END output last, both in source order, nothing after an EXIT marker, no sentinel; non-trivial = ok/runtime with output",
+		Rule: "2-9 rules (6 % of the programs: 13-40 rules) of all five kinds in mixed source order, each printing its tag with $ (and $index, $file, a counter); in 15 % of the programs the rules also assign to $file / $index (constants, containers, derived values) and every rule prints $file; patterns of every truth value, body-less rules, next/exit plain, conditional, in loops, match arms and called functions; 0-3 files x 0-3 values x 0-2 selectors x roots of every shape; oracle: BEGIN output first, END output last, both in source order, nothing after an EXIT marker, no sentinel; non-trivial = ok/runtime with output",
 		Gen: func(r *rand.Rand, tier string, emit func(Case)) {
 			n := tierN(tier, 6000, 150000)
 			for i := 0; i < n; i++ {
@@ -1714,6 +1879,68 @@ func init() {
 				emit(Case{Req: RunReq(prog, sels, files, false), Fields: []string{"class", "out"},
 					Meta:   metaProg(prog, "selectors", strings.Join(sels, " | "), "files", c02FilesMeta(files), "reference", class+" "+strconv.Quote(out), "unbound-read", strconv.Itoa(faults)),
 					Oracle: c02RefOracle(class, out)})
+			}
+		},
+	})
+
+	register(Family{
+		Name: "many-rules", Prop: "C02",
+		Rule: "programs of 13-60 rules (a third of them 10-16 rules, around the size where small-input shortcuts of sorting / partitioning end) of all five kinds under six source-order profiles (uniform mix, mostly pattern rules, BEGIN + pattern rules + END, blocks of one kind in a random order of the kinds, two alternating kinds, one dominant kind with the others sprinkled in): several to dozens of rules of the same kind, each printing its own tag with $ / $index / $file / a shared counter, patterns mostly absent or true (some false / unset / $ > k / $ == k / $index % 2 == 0, a few body-less), a control statement (next / exit plain, conditional, through a function) in about two rules per program and in none in half of the programs; a block of systematic programs: N = 10..64 rules `print tag` only, for each profile; 0-3 files x 0-3 values, 0-2 selectors; the exact trace is predicted by the Go schedule reference (oracle) and compared with the model",
+		Gen: func(r *rand.Rand, tier string, emit func(Case)) {
+			one := func(nr int, pctl float64, plain bool) {
+				kinds, profile := c02ManyKinds(r, nr)
+				rules := make([]c02RRule, nr)
+				for j, k := range kinds {
+					if plain {
+						rules[j] = c02RRule{kind: k, tag: c02TagPrefix[k] + strconv.Itoa(j), acts: []c02RAct{{op: c02OpPrint}}}
+					} else {
+						rules[j] = c02ManyRule(r, k, j, pctl)
+					}
+				}
+				for j := 0; j+1 < nr; j++ {
+					if rules[j].bodyless && rules[j+1].kind == c02P && rules[j+1].pat == c02PatNone {
+						rules[j+1].pat = c02PatTrue
+					}
+				}
+				files := c02RefFiles(r)
+				for try := 0; try < 3 && (len(files) == 0 || len(files[0].Data) == 0); try++ {
+					files = c02RefFiles(r) // mostly with input: the per-file kinds run at all
+				}
+				var sels []string
+				switch r.Intn(10) {
+				case 0, 1:
+					sels = []string{pick(r, []string{"$", "$[0]", "$[1]", "[$, 1]"})}
+				case 2:
+					sels = []string{pick(r, []string{"$", "$[0]", "[$, 1]"}), pick(r, []string{"$", "$[1]", "[$, 1]"})}
+				}
+				prog := c02RRender(r, rules)
+				class, out := c02RefRun(rules, files, sels)
+				perKind := make([]int, 5)
+				for _, k := range kinds {
+					perKind[k]++
+				}
+				emit(Case{Req: RunReq(prog, sels, files, false), Fields: []string{"class", "out"},
+					Meta: metaProg(prog, "selectors", strings.Join(sels, " | "), "files", c02FilesMeta(files), "reference", class+" "+strconv.Quote(out),
+						"rules", strconv.Itoa(nr), "profile", profile, "per-kind B/E/BF/EF/P", fmt.Sprint(perKind)),
+					Oracle: c02ManyOracle(class, out)})
+			}
+			// systematic: every size 10..64, plain tagged prints only (nothing cuts the trace short)
+			for rep := tierN(tier, 4, 40); rep > 0; rep-- {
+				for nr := 10; nr <= 64; nr++ {
+					one(nr, 0, true)
+				}
+			}
+			n := tierN(tier, 2500, 50000)
+			for i := 0; i < n; i++ {
+				nr := 13 + r.Intn(48)
+				if chance(r, 0.33) {
+					nr = 10 + r.Intn(7)
+				}
+				pctl := 0.0
+				if chance(r, 0.5) {
+					pctl = 2.0 / float64(nr)
+				}
+				one(nr, pctl, false)
 			}
 		},
 	})
